@@ -216,6 +216,9 @@ def rand_history(rng, length, max_axes=5, max_size=4, holes=None):
         dims = rand_dims(rng, max_axes=max_axes, holes=tuple(holes) or ("n",))
         shape = rand_shape_for(rng, dims, alpha, valpha, max_size=max_size)
         op = {"dims": dims, "shape": shape}
+        if len(dims.split()) >= 2 and rng.chance(1, 6):
+            # written as a nested annotation (outer axes first): the implementation builds it nested, the model is flat
+            op["split"] = rng.rng(1, len(dims.split()) - 1)
         r = rng.below(40)
         if r == 0:
             op["isinst"] = False
